@@ -7,8 +7,8 @@ if [ -n "$(git -C /repo status --porcelain)" ]; then echo "/repo not clean"; exi
 for d in seeded/*/; do
   id=$(basename $d)
   P=$(/venv/bin/python -c "import json,sys;print(json.load(open('$d/meta.json'))['property'])")
-  if ! git -C /repo apply --check $d/patch.diff 2>/dev/null; then echo "$id $P DOES-NOT-APPLY"; continue; fi
-  git -C /repo apply $d/patch.diff
+  if ! git -C /repo apply --check $PWD/$d/patch.diff 2>/dev/null; then echo "$id $P DOES-NOT-APPLY"; continue; fi
+  git -C /repo apply $PWD/$d/patch.diff
   out=$(./check $P --tier $TIER 2>&1); rc=$?
   git -C /repo checkout -- . ; git -C /repo clean -fdq -- solvor rust 2>/dev/null
   n=$(echo "$out" | grep -c "^VIOLATION")
